@@ -41,6 +41,12 @@
    * a call of a helper listed as "opaque" is the application of a function PARAMETER of the generated definition:
      the helper is assumed to be a pure function of its arguments that returns a fresh array (the link theorems
      quantify over every such function satisfying their stated hypotheses);
+   * FUNCTION ARGUMENTS (`fnargs`): an argument of the source function that is itself a function (numba first-class function,
+     e.g. `output_metric`) is such a function PARAMETER too (placed with the opaque helpers, it disappears from the ordinary
+     arguments): a pure function that does not store into its arguments; a tuple result `(float, array)` is a Coq pair whose
+     array component is FRESH (it shares no memory with the arguments or with any other array).  The name may only be called.
+     `f(a, b, *t)` with `t` a tuple ARGUMENT listed under `empty_star` is `f(a, b)`: the generated definition describes the calls
+     of the source function in which `t` is the empty tuple (the parameter `t` disappears; any other use of `t` is rejected);
    * ROW VIEWS: a name bound by `v = A[i]`, A a 2-d ARGUMENT array that the function stores into (directly, through such
      a name, or by handing a row to a mutating callee), denotes row i of A ITSELF (numpy basic indexing returns a view, not
      a copy).  The generated variable `v` is the row INDEX (a Z, evaluated where the binding is executed); a read `v[d]` is
